@@ -190,7 +190,8 @@ def impl_single(case):
             "remote_starts": sum(1 for m in remote if m["action_status"] == "started"),
             "remote_levels": sorted({tuple(m["task_level"][:-1]) for m in remote}),
             "parent_levels": [m["task_level"] for m in msgs if m.get("action_type") == "parent"],
-            "thread_errors": [r for r in s.results if r and r[0] != "ok"]}
+            "thread_errors": [r for r in s.results if r and r[0] != "ok"],
+            "raw": {"1": [progs.raw_msg(m) for m in msgs]}}
 
 
 def model_single(case):
@@ -399,3 +400,78 @@ LEVEL_TEXT = ("Coq theorems: TaskLevel string round-trip, task-id round-trip and
               "with the model evaluated in Coq.")
 LEVEL_NOTE = ("Trusted: Coq kernel; hand-written model (Base/Level.v) tied by correspondence; Python int()/str() on decimal "
               "digit strings; uuid text has no '@'.")
+
+
+# ---- processes forked after eliot was imported: tasks started on both sides of a fork keep distinct task_uuids ----
+def gen_forked(rng, tier):
+    return [{"children": rng.choice([2, 2, 3]), "tasks": rng.randrange(1, 5), "before": rng.randrange(0, 3)}
+            for _ in range(6 if tier == "quick" else 40)]
+
+
+def impl_forked(case):
+    import os
+    from eliot import _output, start_action, log_message
+    d = _output.Destinations()
+    _output.Logger._destinations = d
+    got = []
+    d.add(lambda m: got.append(m.get("task_uuid")))
+
+    def work(n):
+        for _ in range(n):
+            with start_action(action_type="forked:task"):
+                pass
+            log_message("forked:standalone")
+    work(case["before"])
+    children = []
+    for k in range(case["children"]):
+        r, w = os.pipe()
+        pid = os.fork()
+        if pid == 0:
+            code = 1
+            try:
+                os.close(r)
+                del got[:]
+                work(case["tasks"])
+                os.write(w, json.dumps(got).encode("ascii"))
+                code = 0
+            finally:
+                os._exit(code)
+        os.close(w)
+        data = b""
+        while True:
+            chunk = os.read(r, 65536)
+            if not chunk:
+                break
+            data += chunk
+        os.close(r)
+        os.waitpid(pid, 0)
+        children.append(json.loads(data.decode("ascii")) if data else None)
+    mark = len(got)
+    work(case["tasks"])
+    return {"parent_before": got[:mark], "parent_after": got[mark:], "children": children}
+
+
+def oracle_forked(case, obs):
+    groups = [("parent before the forks", obs["parent_before"]), ("parent after the forks", obs["parent_after"])]
+    for i, c in enumerate(obs["children"]):
+        if c is None:
+            return "forked child %d produced no result" % i
+        groups.append(("forked child %d" % i, c))
+    seen = {}
+    for name, uuids in groups:
+        # each task of `work` emits start+end (same uuid) and one stand-alone message (its own uuid)
+        distinct = []
+        for u in uuids:
+            if not distinct or distinct[-1] != u:
+                distinct.append(u)
+        if len(set(distinct)) != len(distinct):
+            return "%s: a task_uuid was used for two different tasks: %r" % (name, distinct)
+        for u in set(distinct):
+            if u in seen:
+                return "task_uuid %s was given to a task in %s and to another task in %s" % (u, seen[u], name)
+            seen[u] = name
+    return None
+
+
+FAMILIES.append(Family("forked", gen_forked, impl_forked, None, None, oracle_forked,
+                       lambda case, obs: json.dumps(case), shard=3, case_timeout=60))
